@@ -3,6 +3,8 @@ import json
 import os
 import random
 
+from concurrent.futures import ProcessPoolExecutor
+
 from .. import tlc, pipeline, sched
 from ..core import Report, Reject
 
@@ -77,7 +79,6 @@ def validate(rep, hists, label):
     if cur:
         batches.append(cur)
     import multiprocessing as mp
-from concurrent.futures import ProcessPoolExecutor
     jobs = [("Trace_FimStoreConc", "Trace_FimStoreConc.cfg", [{k: v for k, v in h.items() if k != "steps"} for h in b], 3, None)
             for b in batches]
     if len(jobs) == 1:
